@@ -431,6 +431,12 @@ pub fn run_udp_case(case: &UdpCase, oracles: Oracles) -> CaseResult {
                 if others > limit {
                     out.label("swarm>limit");
                 }
+                if others > 255 {
+                    out.label("swarm>255");
+                }
+                if exp.seeders > 255 {
+                    out.label("seeders>255");
+                }
                 let _ = size_before;
             }
             UdpOp::Scrape { fam, hashes, tid } => {
@@ -790,6 +796,21 @@ pub fn udp_op(p: GenParams) -> BoxedStrategy<UdpOp> {
         ]
         .boxed()
     }
+}
+
+/// One torrent, a key domain of ips x ports (hundreds to thousands of keys), long histories with
+/// long-lived entries: swarms beyond 255 peers and 255 seeders per family, replies limited by
+/// max_response_peers far below the swarm size.
+pub fn udp_big_swarm(p: GenParams, peer_clients: bool) -> BoxedStrategy<UdpCase> {
+    let q = GenParams { torrents: 1, stop_w: 1, clean_w: 1, ..p };
+    (
+        prop_oneof![Just(1usize), Just(30usize), Just(100usize), Just(400usize)],
+        any::<u64>(),
+        any::<bool>(),
+        proptest::collection::vec(udp_op(q), p.max_ops / 2..p.max_ops),
+    )
+        .prop_map(move |(max_response_peers, rng_seed, histograms, ops)| UdpCase { max_response_peers, rng_seed, peer_clients, histograms, access_mode: 0, ops })
+        .boxed()
 }
 
 pub fn udp_case(p: GenParams, peer_clients: bool) -> BoxedStrategy<UdpCase> {
